@@ -129,7 +129,7 @@ claim('C09', 'complete one-step mutation closure and short-string enumeration fe
       'grid; when hszinc and the strict reference reader both accept, the grids must agree.',
       'The scanner is sound but incomplete; texts hszinc accepts leniently (reference rejects, scanner silent) are counted, not alarmed. Nesting depth '
       '<= 3. Trusts ref/refzinc.py for the agreement oracle.', 'DESIGN.md 5 C09')
-claim('C17', 'complete enumeration of zone x transition instant x offset x microsecond x format round trips against pytz; fault injection at every position of the lazily built zone map',
+claim('C17', 'complete enumeration of zone x transition instant x offset x microsecond x format round trips against pytz; fault injection at every position of the lazily built zone map and preemption-bounded interleavings of its two first users',
       'Every zone hszinc maps on this host (measured, 366 here) x every pytz transition instant between 1850 and 2100 (thorough; first 2 + last 6 per zone '
       'quick) x {-30 min, -1 s, 0, +1 s, +30 min} x microseconds x {ZINC, JSON}: the value read back must denote the same instant, the same UTC '
       'offset and the same zone; the name<->tz map must be injective, mutually inverse and name = city of its tz. Foreign tzinfo: fixed offsets for '
